@@ -2161,11 +2161,12 @@ fn analyze_assignment_steps(
 	base_type: ValueType,
 	previous_steps: Vec<ReferenceStep>,
 	address_depth: u8,
-) -> (Vec<ReferenceStep>, u8)
+) -> Result<(Vec<ReferenceStep>, u8), (Vec<ReferenceStep>, ValueType)>
 {
 	let mut steps = Vec::new();
 	let mut current_type = base_type;
-	for step in previous_steps.into_iter()
+	let mut previous_steps = previous_steps.into_iter();
+	while let Some(step) = previous_steps.next()
 	{
 		let step = match step
 		{
@@ -2227,7 +2228,16 @@ fn analyze_assignment_steps(
 					{
 						current_type = element_type;
 					}
-					None => unreachable!(),
+					None =>
+					{
+						// This is an error. Keep the remaining steps as is.
+						steps.push(ReferenceStep::Element {
+							argument,
+							is_endless,
+						});
+						steps.extend(previous_steps);
+						return Err((steps, current_type));
+					}
 				}
 				ReferenceStep::Element {
 					argument,
@@ -2306,7 +2316,7 @@ fn analyze_assignment_steps(
 			let step = ReferenceStep::Autoderef;
 			steps.push(step);
 		}
-		(steps, 0)
+		Ok((steps, 0))
 	}
 	else
 	{
@@ -2314,7 +2324,7 @@ fn analyze_assignment_steps(
 		// take an address for a value that is not a pointer.
 		let excess = ad - pd;
 		let address_depth = excess.try_into().unwrap_or(MAX_ADDRESS_DEPTH);
-		(steps, address_depth)
+		Ok((steps, address_depth))
 	}
 }
 
@@ -2366,12 +2376,34 @@ impl Reference
 
 		let (steps, excess_addresses) = match base_type
 		{
-			Some(Ok(base_type)) => analyze_assignment_steps(
+			Some(Ok(base_type)) => match analyze_assignment_steps(
 				typer,
 				base_type,
 				steps,
 				self.address_depth,
-			),
+			)
+			{
+				Ok((steps, excess_addresses)) => (steps, excess_addresses),
+				Err((steps, current_type)) =>
+				{
+					let previous = typer
+						.get_valid_declaration(base)
+						.map(|(_vt, loc)| loc)
+						.unwrap_or_else(|| self.location.clone());
+					let error = Error::NotAnArray {
+						current_type,
+						location: self.location.clone(),
+						previous,
+					};
+					return Reference {
+						base: Err(Poison::Error(error)),
+						steps,
+						address_depth: self.address_depth,
+						location: self.location,
+						location_of_unaddressed: self.location_of_unaddressed,
+					};
+				}
+			},
 			Some(Err(_poison)) => (steps, 0),
 			None => (steps, 0),
 		};
